@@ -673,6 +673,22 @@ pub fn dispatch(t: &[Tok]) -> String {
             };
             format!("{} == {}", a, c)
         }),
+        // filepath V <path bytes>: hash_file_for(path) vs hash_buf_for(fs::read(path)) for an existing path
+        // (pseudo-files whose metadata reports length 0, e.g. under /proc)
+        "filepath" => for_variant!(s(t, 1), T, {
+            let path = std::str::from_utf8(b(t, 2)).expect("HARNESS: utf8").to_string();
+            let back = std::fs::read(&path).unwrap();
+            let a = match tlsh::hash_file_for::<T, _>(&path) {
+                Ok(h) => format!("ok {}", bin_of(&h)),
+                Err(tlsh::GeneratorOrIOError::GeneratorError(e)) => format!("generr {:?}", e),
+                Err(tlsh::GeneratorOrIOError::IOError(e)) => format!("ioerr {:?}", e.kind()),
+            };
+            let c = match tlsh::hash_buf_for::<T>(&back) {
+                Ok(h) => format!("ok {}", bin_of(&h)),
+                Err(e) => format!("generr {:?}", e),
+            };
+            format!("{} == {} # {} bytes", a, c, back.len())
+        }),
         "nofile" => for_variant!(s(t, 1), T, {
             match tlsh::hash_file_for::<T, _>("/nonexistent-dir-verif/none") {
                 Ok(h) => format!("ok {}", bin_of(&h)),
